@@ -337,9 +337,25 @@ def c02(ctx, case, io):
                 sess.clear()
                 restarted = True
                 continue
-            # what a collection may remove is judged by C05/C06: forget everything here
+            # what a collection may remove is judged by C05/C06; under the default policy (untagged collection off) every
+            # manifest stays, with every blob a manifest references; blobs nothing references are forgotten here
             if kind != "expire":
-                blobs.clear(); mans.clear(); tags.clear(); sess.clear()
+                sess.clear()
+                pol = case["conf"]
+                if kind == "gc" and not pol.get("untagged") and not res.get("err"):
+                    keep = set()
+                    for (r_, d_), (body_, _mt, _ms) in mans.items():
+                        keep.add((r_, d_))
+                        v_ = views.get(body_)
+                        if v_:
+                            if v_.get("config"):
+                                keep.add((r_, v_["config"]["dig"]))
+                            for x_ in (v_.get("layers") or []) + (v_.get("manifests") or []):
+                                keep.add((r_, x_["dig"]))
+                    for key_ in [key_ for key_ in blobs if key_ not in keep and key_[0] == st.get("repo")]:
+                        del blobs[key_]
+                else:
+                    blobs.clear(); mans.clear(); tags.clear()
         elif kind == "blobget":
             want = blobs.get((repo, st["arg"]))
             if want is not None:
